@@ -45,6 +45,15 @@ package configuration
 //@ ghost storedCfgCommitted int
 //@ ghost storedCfgApplied int
 //@ ghost cfgStatusWrites int
+// the record as handed to the last UpdateStatus/Update call (whether or not the write succeeded)
+//@ ghost writtenCfgTerm int
+//@ ghost writtenCfgMaster string
+//@ ghost writtenCfgAppliedTerm int
+//@ ghost writtenCfgState int
+//@ ghost writtenCfgProposed int
+//@ ghost writtenCfgCommitted int
+//@ ghost writtenCfgApplied int
+//@ ghost writtenCfgIndex int
 //@ ghost cfgValueWrites int
 //@ ghost cfgCreates int
 
@@ -83,8 +92,9 @@ package configuration
 //@   guard {C10} cfg.term-monotone: configuration.Status.Mastership.Term >= configuration.snapTerm && configuration.Status.Applied.Mastership.Term >= configuration.snapAppliedTerm
 //@   guard {C10} cfg.applied-term-le-term: configuration.Status.Applied.Mastership.Term <= configuration.Status.Mastership.Term
 //@   guard {C01,C07} cfg.status-write-keeps-values: configuration.Index == configuration.snapIndex && configuration.Values == configuration.snapValues && domOf(configuration.Values) == configuration.snapValuesDom && valsOf(configuration.Values) == configuration.snapValuesVal
-//@   modifies configuration.ObjectMeta, configuration.Status.Applied.Values, configuration.tracked, configuration.snapIndex, configuration.snapProposed, configuration.snapCommitted, configuration.snapApplied, configuration.snapTerm, configuration.snapAppliedTerm, configuration.snapState, configuration.snapMaster, configuration.snapValues, configuration.snapAppliedValues, configuration.snapValuesDom, configuration.snapValuesVal, configuration.snapAppliedDom, configuration.snapAppliedVal, storedCfgCommitted, storedCfgApplied, cfgStatusWrites
+//@   modifies configuration.ObjectMeta, configuration.Status.Applied.Values, configuration.tracked, configuration.snapIndex, configuration.snapProposed, configuration.snapCommitted, configuration.snapApplied, configuration.snapTerm, configuration.snapAppliedTerm, configuration.snapState, configuration.snapMaster, configuration.snapValues, configuration.snapAppliedValues, configuration.snapValuesDom, configuration.snapValuesVal, configuration.snapAppliedDom, configuration.snapAppliedVal, storedCfgCommitted, storedCfgApplied, cfgStatusWrites, writtenCfgTerm, writtenCfgMaster, writtenCfgAppliedTerm, writtenCfgState, writtenCfgProposed, writtenCfgCommitted, writtenCfgApplied, writtenCfgIndex
 //@   ensures cfgStatusWrites == old(cfgStatusWrites) + 1
+//@   ensures writtenCfgTerm == configuration.Status.Mastership.Term && writtenCfgMaster == configuration.Status.Mastership.Master && writtenCfgAppliedTerm == configuration.Status.Applied.Mastership.Term && writtenCfgState == configuration.Status.State && writtenCfgProposed == configuration.Status.Proposed.Index && writtenCfgCommitted == configuration.Status.Committed.Index && writtenCfgApplied == configuration.Status.Applied.Index && writtenCfgIndex == configuration.Index
 //@   ensures err == nil ==> cfgSnapshotted(configuration) && storedCfgCommitted == configuration.Status.Committed.Index && storedCfgApplied == configuration.Status.Applied.Index
 //@   ensures err != nil ==> !configuration.tracked && storedCfgCommitted == old(storedCfgCommitted) && storedCfgApplied == old(storedCfgApplied)
 
@@ -96,7 +106,8 @@ package configuration
 //@   guard {C01,C02,C07} cfg.applied-index-monotone: configuration.Status.Applied.Index >= configuration.snapApplied
 //@   guard {C02,C07} cfg.values-write-advances-committed: configuration.Status.Committed.Index > configuration.snapCommitted
 //@   guard {C10} cfg.term-monotone: configuration.Status.Mastership.Term >= configuration.snapTerm && configuration.Status.Applied.Mastership.Term >= configuration.snapAppliedTerm
-//@   modifies configuration.ObjectMeta, configuration.Values, configuration.tracked, configuration.snapIndex, configuration.snapProposed, configuration.snapCommitted, configuration.snapApplied, configuration.snapTerm, configuration.snapAppliedTerm, configuration.snapState, configuration.snapMaster, configuration.snapValues, configuration.snapAppliedValues, configuration.snapValuesDom, configuration.snapValuesVal, configuration.snapAppliedDom, configuration.snapAppliedVal, storedCfgCommitted, storedCfgApplied, cfgValueWrites
+//@   modifies configuration.ObjectMeta, configuration.Values, configuration.tracked, configuration.snapIndex, configuration.snapProposed, configuration.snapCommitted, configuration.snapApplied, configuration.snapTerm, configuration.snapAppliedTerm, configuration.snapState, configuration.snapMaster, configuration.snapValues, configuration.snapAppliedValues, configuration.snapValuesDom, configuration.snapValuesVal, configuration.snapAppliedDom, configuration.snapAppliedVal, storedCfgCommitted, storedCfgApplied, cfgValueWrites, writtenCfgTerm, writtenCfgMaster, writtenCfgAppliedTerm, writtenCfgState, writtenCfgProposed, writtenCfgCommitted, writtenCfgApplied, writtenCfgIndex
 //@   ensures cfgValueWrites == old(cfgValueWrites) + 1
+//@   ensures writtenCfgTerm == configuration.Status.Mastership.Term && writtenCfgMaster == configuration.Status.Mastership.Master && writtenCfgAppliedTerm == configuration.Status.Applied.Mastership.Term && writtenCfgState == configuration.Status.State && writtenCfgProposed == configuration.Status.Proposed.Index && writtenCfgCommitted == configuration.Status.Committed.Index && writtenCfgApplied == configuration.Status.Applied.Index && writtenCfgIndex == configuration.Index
 //@   ensures err == nil ==> cfgSnapshotted(configuration) && storedCfgCommitted == configuration.Status.Committed.Index && storedCfgApplied == configuration.Status.Applied.Index
 //@   ensures err != nil ==> !configuration.tracked && storedCfgCommitted == old(storedCfgCommitted) && storedCfgApplied == old(storedCfgApplied)
